@@ -150,6 +150,15 @@ Definition misconf_name (m : misconf) : string := match m with InterfaceNotForwa
 Definition misconfs_handled (ms : list misconf) : bool :=
   forallb (fun m => str_mem (misconf_name m) ExtMetrics.collect_misconf_cases) ms.
 
+(* the RA generated for the scrape: `if ifi.Advertise { ra, ms, err = ifi.RouterAdvertisement(fwd) }`; None = error *)
+Definition built (i : ifin) (fwd : bool) : option (option ra * list misconf) :=
+  if i_adv i then
+    match i_build i with
+    | Ok r => let '(r', ms) := finalize fwd r in Some (Some r', ms)
+    | Err _ => None
+    end
+  else Some (None, []).
+
 (* constScrape: interfaces in configuration order; the first failing read / build aborts the whole scrape with a
    ScrapeError (samples of the interfaces before it have already been handed to the back end) *)
 Fixpoint scrape_from (regs : list (string * list string)) (ifs : list ifin) (acc : list sample) : outcome (list sample) :=
@@ -162,14 +171,7 @@ Fixpoint scrape_from (regs : list (string * list string)) (ifs : list ifin) (acc
           match i_fwd i with
           | None => Failed acc
           | Some fwd =>
-              let built :=
-                if i_adv i then
-                  match i_build i with
-                  | Ok r => let '(r', ms) := finalize fwd r in Some (Some r', ms)
-                  | Err _ => None
-                  end
-                else Some (None, []) in
-              match built with
+              match built i fwd with
               | None => Failed acc
               | Some (r, ms) =>
                   if misconfs_handled ms then
@@ -266,3 +268,20 @@ Definition spec_samples (n : N) (advertising monitoring autoconf forwarding : bo
       then [ (metric_name MMisconf, [lbl_if n; ("details"%string, LStr "interface_not_forwarding")], sec) ]
       else [])
   ++ flat_map (opt_samples n) (match current with Some r => ra_opts r | None => [] end).
+
+(* the RA which the interface would send at this moment (C04: lifetime 0 when it is not forwarding), and whether its
+   configured lifetime was overridden; None when the interface does not advertise or cannot build an RA *)
+Definition flag (o : option bool) : bool := match o with Some b => b | None => false end.
+Definition sent_ra (i : ifin) : option ra :=
+  if i_adv i then match i_build i with Ok r => Some (fst (finalize (flag (i_fwd i)) r)) | Err _ => None end else None.
+Definition lifetime_overridden (i : ifin) : bool :=
+  if i_adv i then match i_build i with Ok r => (0 <? ra_lifetime r) && negb (flag (i_fwd i)) | Err _ => false end else false.
+Definition iface_spec (i : ifin) : list sample :=
+  spec_samples (i_name i) (i_adv i) (i_mon i) (flag (i_auto i)) (flag (i_fwd i)) (sent_ra i) (lifetime_overridden i).
+
+(* everything a scrape needs can be read: both State reads succeed and an advertising interface can build its RA *)
+Definition readable (i : ifin) : bool :=
+  match i_auto i, i_fwd i with
+  | Some _, Some _ => negb (i_adv i) || is_ok (i_build i)
+  | _, _ => false
+  end.
